@@ -349,12 +349,22 @@ def _analyze_redirects(
         if remote:
             continue
 
-        # Skip safe redirects
-        if target in SAFE_REDIRECT_TARGETS or target.startswith("&"):
+        # Strip fd prefix (N> or {var}>) to get the bare operator
+        bare_op = _strip_fd_prefix(op)
+
+        # fd duplication/closing: >&N, >&-, N>&M- (unquoted & right after the operator)
+        if getattr(r.target, "value", "").startswith("&"):
+            continue
+        if bare_op in (">&", "<&") and (
+            (target.isascii() and target.isdigit()) or target == "-"
+        ):
+            continue
+        # "-" only means stdin/stdout to tools; bash opens a file named "-"
+        if target in SAFE_REDIRECT_TARGETS and target != "-":
             continue
 
         # Check output redirects against config
-        if op in (">", ">>", "&>", "&>>", "2>", "2>>"):
+        if bare_op in (">", ">>", ">|", "&>", "&>>", ">&", "<>"):
             redirect_match = match_redirect(target, config, cwd)
             if redirect_match:
                 if redirect_match.decision == "allow":
@@ -370,6 +380,15 @@ def _analyze_redirects(
                 decisions.append(Decision("ask", f"redirect to {target}"))
 
     return decisions
+
+
+def _strip_fd_prefix(op: str) -> str:
+    """Strip a leading file descriptor (digits or {varname}) from a redirect operator."""
+    if op.startswith("{"):
+        end = op.find("}")
+        if end != -1:
+            return op[end + 1 :]
+    return op.lstrip("0123456789")
 
 
 def _analyze_simple_command(
